@@ -481,4 +481,24 @@ def scale_free_guards(repo: Repo) -> RuleRun:
 
 scale_free_guards.rule_id = "C14.SCALE-FREE-GUARDS"
 
-RULES = [edge_set, side_table, uniform, face_symmetry, no_stale_cache, trig_domain, shape_only, stretch_monotone, scale_free_guards]
+def angle_arguments(repo: Repo) -> RuleRun:
+    from ..dims import angle_arguments_rule
+
+    return angle_arguments_rule(repo, PROP, "C14.ANGLE-ARGUMENTS")
+
+
+angle_arguments.rule_id = "C14.ANGLE-ARGUMENTS"
+
+
+def no_memo(repo: Repo) -> RuleRun:
+    """'rigid motions of a grid leave its quality unchanged' - also of the SAME grid object moved through GridBase.update: nothing of a cell (normal, centre) is memoised. Same rule as C16.NO-MEMO."""
+    from ..report import rebrand
+    from . import c16
+
+    return rebrand(c16.no_memo(repo), PROP, "C14.NO-MEMO")
+
+
+no_memo.rule_id = "C14.NO-MEMO"
+
+
+RULES = [edge_set, side_table, uniform, face_symmetry, no_stale_cache, trig_domain, shape_only, stretch_monotone, scale_free_guards, angle_arguments, no_memo]
